@@ -18,13 +18,13 @@ class LockFile:
         self.minimum = minimum
         self.maximum = maximum
         os.makedirs(filename.rsplit('/', 1)[0], exist_ok=True)
-        try:
-            self.fd = os.open(self.filename, os.O_CREAT | os.O_RDWR
-                                             | os.O_EXCL | os.O_CLOEXEC)
-        except FileExistsError:
-            self.fd = os.open(self.filename, os.O_RDWR | os.O_CLOEXEC)
-        else:
-            os.write(self.fd, bytes(maximum - minimum))
+        self.fd = os.open(self.filename,
+                          os.O_CREAT | os.O_RDWR | os.O_CLOEXEC)
+        # whoever comes first sizes the file.  Extending it is atomic, reads
+        # as zeros and never touches a counter that is already there, so it
+        # does not matter who does it, nor how often
+        if os.fstat(self.fd).st_size < maximum - minimum:
+            os.ftruncate(self.fd, maximum - minimum)
 
     def close(self):
         os.close(self.fd)
